@@ -170,22 +170,33 @@ def step_refine(ctx):
 
 
 def specs(tier):
-    depth = 3 if tier == "quick" else 4
-    devb = 1 if tier == "quick" else 2
     from checks import c02, c03
 
     q = tier == "quick"
-    return [
-        explore.Spec("hypergraph-refinement", histcheck.SEEDS_H[:3] if q else histcheck.SEEDS_H, A.hypergraph_static() + A.hypergraph_deviant(),
-                     [A.gen_member_removals, A.gen_swaps, A.gen_shuffles], steps=[step_refine], depth=depth,
-                     dev_bound=devb, namespace=histcheck.base_namespace),
-        explore.Spec("dihypergraph-refinement", c02.SEEDS[:2] if q else c02.SEEDS, A.dihypergraph_static() + A.dihypergraph_deviant(),
-                     [A.gen_dimember_removals], steps=[step_refine], depth=depth, dev_bound=devb,
-                     namespace=histcheck.base_namespace),
-        explore.Spec("simplicialcomplex-refinement", c03.SEEDS[:2] if q else c03.SEEDS, A.simplicial_static() + A.simplicial_deviant(),
-                     [A.gen_simplex_removals], steps=[step_refine], depth=depth, dev_bound=devb,
-                     namespace=histcheck.base_namespace),
+    depth = 3
+    devb = 1 if q else 2
+    sp = [
+        explore.Spec("hypergraph-refinement", histcheck.SEEDS_H[:3] if q else histcheck.SEEDS_H,
+                     A.hypergraph_static() + A.hypergraph_deviant(), [A.gen_member_removals, A.gen_swaps, A.gen_shuffles],
+                     steps=[step_refine], depth=depth, dev_bound=devb, namespace=histcheck.base_namespace),
+        explore.Spec("dihypergraph-refinement", c02.SEEDS[:2] if q else c02.SEEDS,
+                     A.dihypergraph_static() + A.dihypergraph_deviant(), [A.gen_dimember_removals], steps=[step_refine],
+                     depth=depth, dev_bound=devb, namespace=histcheck.base_namespace),
+        explore.Spec("simplicialcomplex-refinement", c03.SEEDS[:2] if q else c03.SEEDS,
+                     A.simplicial_static() + A.simplicial_deviant(), [A.gen_simplex_removals], steps=[step_refine],
+                     depth=depth, dev_bound=devb, namespace=histcheck.base_namespace),
     ]
+    if not q:
+        sp += [
+            explore.Spec("hypergraph-refinement-deep", histcheck.SEEDS_H[:2], A.hypergraph_trim(),
+                         [A.gen_member_removals, A.gen_swaps, A.gen_shuffles], steps=[step_refine], depth=4, dev_bound=2,
+                         namespace=histcheck.base_namespace),
+            explore.Spec("dihypergraph-refinement-deep", c02.SEEDS[:2], A.dihypergraph_trim(), [A.gen_dimember_removals],
+                         steps=[step_refine], depth=4, dev_bound=2, namespace=histcheck.base_namespace),
+            explore.Spec("simplicialcomplex-refinement-deep", c03.SEEDS[:2], A.simplicial_trim(), [A.gen_simplex_removals],
+                         steps=[step_refine], depth=4, dev_bound=2, namespace=histcheck.base_namespace),
+        ]
+    return sp
 
 
 def run(tier, ev):
